@@ -305,11 +305,20 @@ fn build_command(
         command.stdin(Stdio::null());
     }
 
-    if let Output::Named(output) = output_conf {
-        command.stdout(Stdio::null());
-        create_named_pipe(output)?;
-    } else {
-        command.stdout(Stdio::piped());
+    match output_conf {
+        Output::Named(output) => {
+            command.stdout(Stdio::null());
+            create_named_pipe(output)?;
+        }
+        // The result is read from the modified input file after the program exits.
+        // Nobody would read from a pipe, so a program printing more than the pipe can hold
+        // would block forever.
+        Output::InPlace(_) => {
+            command.stdout(Stdio::null());
+        }
+        Output::StdOut => {
+            command.stdout(Stdio::piped());
+        }
     }
 
     Ok(command)
